@@ -5,6 +5,7 @@ import (
 	"fmt"
 	"path/filepath"
 	"sync"
+	"sync/atomic"
 	"time"
 
 	"github.com/form3tech-oss/f1/v2/internal/raterun"
@@ -136,7 +137,7 @@ func c18random(c *ctx, k int, forced string) c18trace {
 		if i == 0 && c.rng.Intn(3) > 0 {
 			d = 0
 		}
-		if forced == "immediate-stop" {
+		if forced == "immediate-stop" || forced == "slow-fn-stop" {
 			d = 0
 		} else if i == 0 && (c.rng.Intn(8) == 0 || forced != "") {
 			d = 4 * time.Second // a long first start delay: Stop/cancel must still end the goroutine promptly
@@ -149,8 +150,12 @@ func c18random(c *ctx, k int, forced string) c18trace {
 	}
 	rec := &c18rec{t0: time.Now()}
 	fnDur := time.Duration(c.rng.Intn(3000)) * time.Microsecond
+	var slowOnce atomic.Bool
 	fn := func(f time.Duration) {
 		rec.add(rEv{K: "fnb", A: f.Microseconds(), C: rec.us()})
+		if slowOnce.CompareAndSwap(true, false) {
+			time.Sleep(1500 * time.Millisecond) // e.g. progress output blocked on a stalled terminal
+		}
 		if fnDur > 0 {
 			time.Sleep(fnDur)
 		}
@@ -172,6 +177,21 @@ func c18random(c *ctx, k int, forced string) c18trace {
 	defer cancel()
 	rec.add(rEv{K: "start", C: rec.us()})
 	rn.Start(ctx)
+	if forced == "slow-fn-stop" {
+		// Stop arrives while an invocation is in progress that lasts well over a second: it returns only when that is over
+		time.Sleep(40 * time.Millisecond)
+		slowOnce.Store(true)
+		time.Sleep(30 * time.Millisecond)
+		rec.add(rEv{K: "stopcall", C: rec.us()})
+		rn.Stop()
+		rec.add(rEv{K: "stopret", C: rec.us()})
+		time.Sleep(150 * time.Millisecond)
+		rec.add(rEv{K: "after", D: int64(maxInt(c18leaks()-g0, 0))})
+		rec.mu.Lock()
+		tr.Ev = rec.ev
+		rec.mu.Unlock()
+		return tr
+	}
 	if forced == "immediate-stop" {
 		rec.add(rEv{K: "stopcall", C: rec.us()})
 		rn.Stop()
@@ -249,6 +269,8 @@ func init() {
 					forced = "long-cancel"
 				} else if k >= 2 && k <= 5 {
 					forced = "immediate-stop"
+				} else if k == 6 {
+					forced = "slow-fn-stop"
 				}
 				t := c18random(c, k, forced)
 				mu.Lock()
